@@ -162,6 +162,52 @@ def install_absparser_probe():
     P._parser.parse = classmethod(parse)
 
 
+def install_nospaces_probe():
+    """Wrap `_no_spaces_parser.parse` (classmethod): log the string, the settings fields it reads, the outcome."""
+    if _PROBE.get("nsp_installed"):
+        return
+    _PROBE["nsp_installed"] = True
+    try:
+        import dateparser.parser as P
+        orig = P._no_spaces_parser.__dict__["parse"].__func__
+    except Exception:
+        _PROBE["unbound"].append("_no_spaces_parser.parse")
+        return
+    import re as _re
+
+    def parse(cls, datestring, settings):
+        rec = {"ev": "nospaces", "ds": datestring, "order": str(settings.DATE_ORDER), "strict": bool(settings.STRICT_PARSING),
+               "require": list(settings.REQUIRE_PARTS or [])}
+        try:
+            m = _re.search(r"\D+", datestring)
+            rec["eligible"] = (m is None) or m.group() == ":"
+            ds = datestring.replace(":", "")
+            toks = []
+            ok = True
+            for tok, typ in P.tokenizer(ds).tokenize() if ds else []:
+                if tok.isdigit() and tok.isascii():
+                    if len(tok) > 40:
+                        ok = False
+                    toks.append([int(ch) for ch in tok])
+            rec["toks"] = toks
+            rec["skip"] = not ok
+        except Exception:
+            rec["toks"], rec["skip"], rec["eligible"] = [], True, False
+        try:
+            res = orig(cls, datestring, settings)
+        except BaseException as e:
+            rec["out"] = ["fail"] if isinstance(e, ValueError) else ["exc:" + type(e).__name__]
+            rec["period"] = ""
+            _events().append(rec)
+            raise
+        rec["out"] = dt_to_list(res[0])
+        rec["period"] = res[1] or ""
+        _events().append(rec)
+        return res
+
+    P._no_spaces_parser.parse = classmethod(parse)
+
+
 def project_settings(settings, tz=None):
     base = getattr(settings, "RELATIVE_BASE", None)
     sg = {
@@ -198,6 +244,7 @@ def call_parse(case):
     from dateparser.date import DateDataParser
     if case.get("probe"):
         install_absparser_probe()
+        install_nospaces_probe()
     _state.events = []
     kw = dict(case.get("kw") or {})
     st = decode_settings(case.get("settings"))
